@@ -259,6 +259,21 @@ class Model(CallsMixin, BuiltinsMixin):
             elif a.p is not None and b.p is not None and sym in ('+', '-') \
                     and a.k in ('int', 'float') and b.k in ('int', 'float'):
                 out.p = a.p + b.p if sym == '+' else a.p - b.p
+            # sign arithmetic:  c + x  with c > 0, x >= 0  is positive
+            def _pos(v):
+                return v.has_const() and isinstance(v.c, (int, float)) and \
+                    not isinstance(v.c, bool) and v.c > 0
+
+            def _nn(v):
+                return bool(v.nonneg) or (
+                    v.has_const() and isinstance(v.c, (int, float)) and
+                    v.c >= 0)
+            if sym == '+' and ((_pos(a) and _nn(b)) or (_pos(b) and _nn(a))):
+                out.nonneg = True
+                if out.note is None:
+                    out.note = 'nonzero'
+            elif sym in ('+', '*') and _nn(a) and _nn(b):
+                out.nonneg = True
         return out
 
     # --- facets on scalar / array arithmetic (U, G)
@@ -563,6 +578,9 @@ class Model(CallsMixin, BuiltinsMixin):
             lead = self.broadcast(da[:-2], db[:-2], None)
             out = ARR(tuple(lead or ()) + (da[-2], db[-1]), 'f')
         out.taint = a.taint | b.taint
+        if len(da) == 2 and len(db) == 1 and isinstance(b.rel, tuple) and \
+                b.rel[0] == 'row' and b.rel[1] is a:
+            out.rel = ('gramrow', b.rel[2])
         if a.nonlin or b.nonlin:
             self.site('L-lin', node, 'violation',
                       'an operand of this contraction is a non-linear '
@@ -700,7 +718,24 @@ class Model(CallsMixin, BuiltinsMixin):
                                   'from the end) is compared by value with '
                                   'arange(n): negative positions select '
                                   'nothing')
-            return ARR(dims, 'b')
+            rm = ARR(dims, 'b')
+            # mask of the non-zero entries of one array:  x > c, c < x (c >= 0),
+            # x != 0, abs(x) > c  ->  x[mask] has no zero entry
+            def _nn0(v):
+                return v.has_const() and isinstance(v.c, (int, float)) and \
+                    not isinstance(v.c, bool) and v.c >= 0
+            if a.k == 'arr' and _nn0(b) and isinstance(op, ast.Gt):
+                rm.rel = ('nzmask', a.rel[1] if isinstance(a.rel, tuple) and
+                          a.rel[0] == 'absof' else a)
+            elif b.k == 'arr' and _nn0(a) and isinstance(op, ast.Lt):
+                rm.rel = ('nzmask', b.rel[1] if isinstance(b.rel, tuple) and
+                          b.rel[0] == 'absof' else b)
+            elif isinstance(op, ast.NotEq):
+                for x, y in ((a, b), (b, a)):
+                    if x.k == 'arr' and y.has_const() and y.c == 0 and \
+                            not isinstance(y.c, bool):
+                        rm.rel = ('nzmask', x)
+            return rm
         if a.has_const() and b.has_const():
             try:
                 ca, cb = a.c, b.c
@@ -1001,6 +1036,9 @@ class Model(CallsMixin, BuiltinsMixin):
         if not out and not adv:
             # scalar element
             s = self.I.scalar_of(base)
+            if isinstance(base.rel, tuple) and base.rel[0] == 'gramrow' and \
+                    len(comps) == 1 and comps[0] is base.rel[1]:
+                s.nonneg = True     # (M @ M[i])[i] = |M[i]|**2
             return s
         r = ARR(tuple(out), base.dt)
         r.nonlin = base.nonlin
@@ -1026,6 +1064,13 @@ class Model(CallsMixin, BuiltinsMixin):
         if out_lay is not None and any(x is not None for x in out_lay):
             r.lay = tuple(out_lay)
         if not advanced:
+            if len(base.dims) == 2 and len(comps) == 1 and \
+                    comps[0].k == 'int':
+                r.rel = ('row', base, comps[0])
+            elif len(base.dims) == 2 and len(comps) == 2 and \
+                    comps[0].k == 'int' and comps[1].k == 'slice' and \
+                    all(x is None or x.k == 'none' for x in comps[1].items):
+                r.rel = ('row', base, comps[0])
             r.org = base.org
             r.uninit = base.uninit
             # column / row slices keep orthonormal columns / rows
@@ -1040,6 +1085,11 @@ class Model(CallsMixin, BuiltinsMixin):
             r.src = base.src if keep else None
         if base.idx is not None:
             r.idx = base.idx
+        if len(comps) == 1 and comps[0].k == 'arr' and comps[0].dt == 'b' and \
+                isinstance(comps[0].rel, tuple) and \
+                comps[0].rel[0] == 'nzmask' and comps[0].rel[1] is base and \
+                r.note is None:
+            r.note = 'nonzero'      # entries selected by their own x > 0 mask
         return r
 
     def _perm_index(self, comps):
